@@ -249,10 +249,30 @@ class Tap:
             o_cancel(self_, silent, source)
             log.append({'k': 'cancel', 'id': oid(self_), 't': store.app.time, 'was': was, 'now': self_.status})
         Order.__init__, Order.execute, Order.cancel = init, execute, cancel
+        # every liquidation check the simulators make
+        import jesse.modes.backtest_mode as bm
+        self.bm = bm
+        self.orig_liq = bm._check_for_liquidations
+
+        def liqcheck(candle, exchange, symbol):
+            p = store.positions.storage.get(f'{exchange}-{symbol}')
+            ev = {'k': 'liqcheck', 't': store.app.time, 'sym': symbol, 'candle': [float(x) for x in candle],
+                  'qty': None if p is None else float(p.qty), 'entry': None if p is None or p.entry_price is None else float(p.entry_price),
+                  'mode': None if p is None else p.mode, 'lev': None if p is None else float(p.leverage)}
+            n0 = len(log)
+            l0 = store.app.total_liquidations
+            self.orig_liq(candle, exchange, symbol)
+            ev['liquidated'] = store.app.total_liquidations - l0
+            created = [x for x in log[n0:] if x['k'] == 'submit' and x['type'] == 'MARKET' and x['ro']] if ev['liquidated'] else []
+            ev['price'] = float(created[0]['price']) if created else 0.0
+            ev['qty_after'] = None if p is None else float(p.qty)
+            log.append(ev)
+        bm._check_for_liquidations = liqcheck
         return self
 
     def __exit__(self, *a):
         self.Order.__init__, self.Order.execute, self.Order.cancel = self.orig
+        self.bm._check_for_liquidations = self.orig_liq
 
 
 def run_session(candles_by_symbol, routes, data_routes=(), exchange_type='futures', fee=0.0, leverage=2, mode='cross', balance=10000.0,
